@@ -154,7 +154,11 @@ func runUnit(bin string, u *unit, env []string) (*result, error) {
 // ln counter), imported types used from inside a union so that Validate accepts the file on its own.
 const smallMain = `import "imp.bop"
 message M { 1 -> map[string, int32] m; }
-union U { 1 -> struct B { Q q; E e; E[] es; } }
+union U {
+  1 -> struct B { Q q; E e; E[] es; }
+  [deprecated("old")]
+  2 -> struct C { int32 c; }
+}
 `
 
 const smallImp = `const string go_package = "example.com/c14/imp";
@@ -190,6 +194,10 @@ func mapsSchema() (main, impa, impb string) {
 	for _, n := range []int{2, 3, 5, 8, 9} {
 		fmt.Fprintf(&b, "union U%d {\n", n)
 		for i := n; i >= 1; i-- {
+			if i == 2 {
+				// a deprecated, documented branch (attributes live on the union field, comments on the member)
+				fmt.Fprintf(&b, "  /* branch %d is on its way out */\n  [deprecated(\"use branch 1\")]\n", i)
+			}
 			if i%2 == 0 {
 				fmt.Fprintf(&b, "  %d -> message U%dM%d { 1 -> %s p; 2 -> %s q; }\n", i, n, i, types[i%len(types)], types[(i+3)%len(types)])
 			} else {
